@@ -652,6 +652,28 @@ def r4(ctx):
     rn = [r for r in returns(f.node) if r.value is None or (isinstance(r.value, ast.Constant) and r.value.value is None)]
     par = enclosing_map(f.node)
     ok = len(rn) == 1 and isinstance(par.get(rn[0]), ast.If) and N.b(par[rn[0]].test) in (N.b(parse_expr(f"not {elig}")), N.b(parse_expr(f"len({elig}) == 0")))
+    if not ok:
+        # the same thing by path conditions: every exit without a plate (explicit `return None` or running off the end) is reached only
+        # when the eligible list is empty, and the plate is returned only when it is not
+        import copy as _copy
+        from engine.astutil import stmt_conditions
+        body = list(f.node.body)
+        end = ast.Pass(lineno=10 ** 6, col_offset=0)
+        falls_off = not (body and isinstance(body[-1], (ast.Return, ast.Raise)))
+        conds = stmt_conditions(body + ([end] if falls_off else []))
+        empty_forms = (N.b(parse_expr(f"not {elig}")), N.b(parse_expr(f"len({elig}) == 0")))
+
+        def under_empty(st_, want=True):
+            for t, pol in conds.get(id(st_), []):
+                b_ = N.b(t, neg=not pol)
+                if b_ in empty_forms:
+                    return want
+                if N.b(t, neg=pol) in empty_forms:
+                    return not want
+            return False
+        none_exits = list(rn) + ([end] if falls_off else [])
+        plate_rets = [r for r in returns(f.node) if r not in rn]
+        ok = bool(none_exits) and all(under_empty(x) for x in none_exits) and bool(plate_rets) and all(under_empty(x, want=False) for x in plate_rets)
     ctx.check("R4", f"{f.site()}::none-only-when-empty", ok, "None is returned only when no plate is eligible",
               "None can be returned although eligible plates exist (or is not returned when none exist)")
     rr = [r for r in returns(f.node) if r not in rn]
